@@ -69,6 +69,9 @@ def multimerge(dfs: OneOf(ListT(Obj("DataFrame"), Obj("DataFrame")), ListT(Obj("
                suffixes: OneOf(NoneType, ListT(Str, Str), ListT(Str, Str, Str), ListT(Str, Str, Str, Str)),
                kwargs: OneOf(KwargsT(), KwargsT(how=Str))):
     requires(suffixes is None or len(suffixes) == len(dfs))
+    # pandas refuses a join that would create duplicate column names: without per-table suffixes the tables' other columns are
+    # pairwise distinct, and the key is a column of every table (or, for on="index", their index)
+    requires(joinable(dfs, on, suffixes))
     raises(None)
     # the left-to-right join of all tables on the key: the index, or the named column
     ensures(implies(suffixes is None and on == "index",
